@@ -1,0 +1,46 @@
+//go:build verif
+
+package pongo2
+
+import "sort"
+
+// Hooks for the deterministic-simulation harness in /verif. Compiled only with
+// the build tag "verif"; without it verifPoint is an empty function (see
+// verif_hooks_off.go) and the shipped behaviour is unchanged.
+
+// VerifLocker is what a simulation hook may probe: it must never block.
+type VerifLocker interface {
+	TryLock() bool
+	Unlock()
+}
+
+// VerifSim, when set, is called right before the engine acquires one of its
+// own locks. A simulator uses it to turn a would-be block into a scheduling
+// decision it owns.
+var VerifSim func(point string, l VerifLocker)
+
+func verifPoint(point string, l VerifLocker) {
+	if f := VerifSim; f != nil {
+		f(point, l)
+	}
+}
+
+// VerifRegisteredTags returns the names of all registered tags, sorted.
+func VerifRegisteredTags() []string {
+	names := make([]string, 0, len(tags))
+	for name := range tags {
+		names = append(names, name)
+	}
+	sort.Strings(names)
+	return names
+}
+
+// VerifRegisteredFilters returns the names of all registered filters, sorted.
+func VerifRegisteredFilters() []string {
+	names := make([]string, 0, len(filters))
+	for name := range filters {
+		names = append(names, name)
+	}
+	sort.Strings(names)
+	return names
+}
